@@ -106,7 +106,11 @@ func vNetblocks() []net.IPNet {
 // roleCert mints an IP-restricted automation certificate exactly as
 // withParamsGenerateRoleRequestingCert does (same library call, same CA, same key).
 func (w *vWorld) roleCert(cn string, blocks []net.IPNet) *x509.Certificate {
-	der, err := certgen.GenIPRestrictedX509Cert(cn, &vUserEC.PublicKey, w.roleCACert(), w.st.Signer, blocks, time.Hour, nil, nil)
+	return w.roleCertFor(cn, blocks, time.Hour)
+}
+
+func (w *vWorld) roleCertFor(cn string, blocks []net.IPNet, lifetime time.Duration) *x509.Certificate {
+	der, err := certgen.GenIPRestrictedX509Cert(cn, &vUserEC.PublicKey, w.roleCACert(), w.st.Signer, blocks, lifetime, nil, nil)
 	vMust(err)
 	c, err := x509.ParseCertificate(der)
 	vMust(err)
